@@ -133,6 +133,8 @@ def check_trace(script_lines, out_lines, mode="fifo"):
                 if o is None:
                     return "missing output in drain"
                 w = o.split()
+                if w[0] == "stored" and len(w) != 3:
+                    return "drain reported '%s' (a path and its flags were expected)" % o
                 if w[0] == "stored":
                     bad = judge(["head", "ready", w[1], w[2]], "timeout pass")
                     if bad:
